@@ -296,6 +296,46 @@ def walk_trace(tid, rng, n0, steps, max_n):
     return {"tid": tid, "star": False, "meta": {"kind": "walk", "n0": n0}, "init": init, "events": events}
 
 
+def mid_walk(tid, rng, n0, rounds):
+    """9 - 11 qubits, judged at GROUP level (512 - 2048 group elements): entangling gates, then a partial trace that
+    drops two or more positions at once - the last position (>= 9) among them - then more gates and another trace.
+    Position sets beyond 8 are where "the positions to drop" stop being small-set-ordered."""
+    sfc, tr, CliffordTableau, Stabilizer, MixedStabilizer = _mods()
+    np.random.seed(rng.randint(0, 2 ** 31 - 1))
+    tab = CliffordTableau(n0)
+    init = pj.tab_obs(tab)
+    events = []
+    ok = True
+    for rnd in range(rounds):
+        n = tab.n_qubits
+        if n < 3 or not ok:
+            break
+        acts = []
+        for q in rng.sample(range(1, n + 1), max(2, n // 2)):
+            acts.append({"ev": "g1", "g": "H", "a": q})
+        for _ in range(n):
+            c, t = rng.sample(range(1, n + 1), 2)
+            acts.append({"ev": "g2", "g": rng.choice(G2), "a": c, "b": t})
+            if rng.random() < 0.4:
+                acts.append({"ev": "g1", "g": rng.choice(G1), "a": rng.randint(1, n)})
+        drop = {n} | set(rng.sample(range(1, n), rng.randint(1, 2)))
+        keep = [k for k in range(1, n + 1) if k not in drop]
+        rng.shuffle(keep)
+        acts.append({"ev": "ptrace", "keep": keep, "d": rng.choice([2, 2, 0, 1])})
+        for a in acts:
+            via = rng.choice(["fn", "fn", "stab", "mixed"]) if a["ev"] == "ptrace" else "fn"
+            backup = tab.copy()
+            new, e = do_event(tab, a, via)
+            e["via"] = via
+            events.append(e)
+            if e["post"]["err"]:
+                tab = backup
+                ok = False
+                break
+            tab = new
+    return {"tid": tid, "star": False, "meta": {"kind": "mid-walk", "n0": n0}, "init": init, "events": events}
+
+
 # ----------------------------------------------------------------------------------------------------------
 # large tableaux: generator-level judging with certificates (Trace_TableauBig)
 def _bits(o):
@@ -521,6 +561,12 @@ def run(ctx):
         tid += 1
         walks.append(walk_trace(tid, ctx.rng, n0, steps, max_n=5 if ctx.quick else 6))
     ctx.judge("Trace_Tableau", walks, label="J: random walks over the tableau API")
+    mids = []
+    for n0 in (9, 10, 11, 9, 10, 12) if ctx.quick else (9, 10, 11, 12) * 12:
+        tid += 1
+        mids.append(mid_walk(tid, ctx.rng, n0, 2 if ctx.quick else 3))
+    ctx.judge("Trace_Tableau", mids, label="J: 9 - 12 qubit walks with multi-qubit partial traces (group level)", xmx="6g",
+              shards=min(len(mids), 12))
     # large tableaux, generator level
     big = []
     plan = [(24, 60, 1), (64, 40, 1)] if ctx.quick else [(24, 200, 1)] * 6 + [(64, 120, 1)] * 4 + [(200, 130, 20)] * 2
